@@ -23,6 +23,7 @@ structure EvalSt where
   exVal : List (Nat × Coef) := []            -- `_value` of the LEAF expressions (set at each successful solve)
   consVal : List (Nat × Coef) := []          -- (unused since the fix: constraints are re-evaluated at each call)
   consDual : List (Nat × Coef) := []         -- `_dual_variable_value`
+  psdDual : List (Nat × Coef) := []          -- `_dual_variable_value` of LMIs: the scripted multiplier is `token · I`
   ptEpoch : List (Nat × Nat) := []           -- (unused since the fix)
   deriving Repr
 
@@ -44,8 +45,16 @@ def EvalSt.afterSolve (s : EvalSt) (w : World) (sol : Solution) : EvalSt :=
     match (w.sent[k]? : Option Sent) with
     | some (Sent.cons h) => some (h, ((1000 + k : Nat) : Coef))
     | _ => Option.none)
+  -- `assign_dual_values` walks the sent list in order: for an object sent twice the LAST multiplier stays
+  let duals := duals.reverse
   let consDual := duals ++ s.consDual.filter (fun hv => !(duals.map (·.1)).contains hv.1)
-  { s with sols := s.sols.push sol, exVal := exVal, consDual := consDual }
+  let pduals : List (Nat × Coef) := (List.range w.sent.length).filterMap (fun k =>
+    match (w.sent[k]? : Option Sent) with
+    | some (Sent.psd h) => some (h, ((2000 + k : Nat) : Coef))
+    | _ => Option.none)
+  let pduals := pduals.reverse
+  let psdDual := pduals ++ s.psdDual.filter (fun hv => !(pduals.map (·.1)).contains hv.1)
+  { s with sols := s.sols.push sol, exVal := exVal, consDual := consDual, psdDual := psdDual }
 
 def lookupG (sol : Solution) (i j : Nat) : Option Coef :=
   if i < sol.nP ∧ j < sol.nP then some ((sol.G.getD i []).getD j 0) else Option.none
@@ -96,6 +105,23 @@ def evalDual (s : EvalSt) (h : Nat) : Except EvalErr Coef :=
   | some v => .ok v
   | Option.none => .error .valueError
 
+/-- `PSDMatrix.eval()`: every entry is evaluated (row by row); a `ValueError` of an entry is re-raised as
+the matrix's own `ValueError` -/
+def evalPsd (w : World) (s : EvalSt) (h : Nat) : Except EvalErr (List (List Coef)) :=
+  match w.psds[h]? with
+  | Option.none => .error .valueError
+  | some m =>
+    m.entries.mapM (fun row => row.mapM (fun eh =>
+      match evalExpr w s eh with
+      | .ok (v, _) => .ok v
+      | .error _ => .error EvalErr.valueError))
+
+/-- `PSDMatrix.eval_dual()` (scripted multiplier `token · I`) -/
+def evalPsdDual (s : EvalSt) (h : Nat) : Except EvalErr Coef :=
+  match s.psdDual.lookup h with
+  | some v => .ok v
+  | Option.none => .error .valueError
+
 /-- squared norm of `Point.eval()`: leaves and combinations alike report the latest solve -/
 def evalPointNormSq (w : World) (s : EvalSt) (h : Nat) : Except EvalErr (Coef × EvalSt) :=
   match w.pts[h]? with
@@ -142,12 +168,16 @@ def constOf (d : EDict) : Coef := (d.filter (fun kc => kc.1 == EKey.one)).foldl 
 `−Σ λ_c · const(expr_c) + Σ_k Σ_ij Λ_k[i,j] · const(T_k[i,j])`, for scripted multipliers
 `λ_c = 1000 + position`, `Λ_k = (2000 + position) · I`. -/
 def scriptedDualObjective (w : World) : Coef :=
+  -- the multiplier `check_feasibility` reads is the one EXPOSED by the object: for an object sent twice,
+  -- that of its last row (for both occurrences)
+  let lastPos (s : Sent) : Nat → Nat := fun k =>
+    ((List.range w.sent.length).filter (fun k' => (w.sent[k']? : Option Sent) == some s)).getLast?.getD k
   (List.range w.sent.length).foldl (fun acc k =>
     match (w.sent[k]? : Option Sent) with
     | some (Sent.cons h) =>
       match w.cons[h]? with
       | some c => match w.exs[c.e]? with
-        | some e => acc - ((1000 + k : Nat) : Coef) * constOf (Dict.prune e.d)
+        | some e => acc - ((1000 + lastPos (Sent.cons h) k : Nat) : Coef) * constOf (Dict.prune e.d)
         | Option.none => acc
       | Option.none => acc
     | some (Sent.psd h) =>
